@@ -1358,3 +1358,14 @@ Proof.
     rewrite (zsubset_codes (doc_hooks probe_heap 0 t) hits) by (intros x Hx; now apply HM).
     rewrite (zsubset_codes hits (doc_hooks probe_heap 0 t)) by (intros x Hx; now apply HM). reflexivity.
 Qed.
+
+(* the same for expressions built through the API: compile_expr's graphs hook what the paths of the expression hook *)
+Lemma expr_hooks e gs : create_graphs e [] = Some gs ->
+  forall h o x, In x (flat_map (hook_graph h o) gs) <-> In x (flat_map (hook_path h o) (paths e)).
+Proof.
+  intros Hc h o x. pose proof (proj1 (expr_meaning e) _ Hc) as HM. rewrite !in_flat_map. split.
+  - intros (g & Hg & Hx). apply hook_graph_paths in Hx. destruct Hx as (p & Hp & Hx).
+    exists p. split; [|exact Hx]. rewrite <- HM. apply in_flat_map. now exists g.
+  - intros (p & Hp & Hx). rewrite <- HM in Hp. apply in_flat_map in Hp. destruct Hp as (g & Hg & Hp).
+    exists g. split; [exact Hg|]. apply hook_graph_paths. now exists p.
+Qed.
